@@ -330,6 +330,8 @@ def run_check(mod_name, tier, seed, replay=None):
         corpus.append(json.load(open(f))['case'])
     exh = list(P.exhaustive_cases(tier))
     n_rand = P.n_random(tier)
+    import gen as _gen
+    _gen.MANY_RUNS_P = min(0.05, 30.0 / max(n_rand, 1))      # about 30 long-timeline states per run: they are expensive
     rand = [add_prelife(rnd, c, pid) for c in P.random_cases(rnd, n_rand)]
     cases = corpus + exh + rand
     extra_scope = False
